@@ -46,6 +46,13 @@ def qc(ch: str) -> str:
     return f"'{ch}'"
 
 
+def starts_with_tag(x) -> bool:
+    """the printed form of x begins with `#tag = `"""
+    while x[0] in POSTFIX:
+        x = x[1]
+    return x[0] in ("id", "group") and bool(x[2])
+
+
 def show(e) -> str:  # noqa: PLR0911, PLR0912
     k = e[0]
     if k == "str":
@@ -67,7 +74,8 @@ def show(e) -> str:  # noqa: PLR0911, PLR0912
 
     def arg(x):
         s_ = show(x)
-        if x[0] in POSTFIX or x[0] in ("and", "not") or (x[0] in ("id", "group") and x[2]):
+        # a node tag binds tighter than a postfix operator: `#t = (e)+` is the repetition of the tagged group
+        if x[0] in POSTFIX or x[0] in ("and", "not"):
             s_ = "(" + s_ + ")"
         return s_
 
@@ -87,7 +95,7 @@ def show(e) -> str:  # noqa: PLR0911, PLR0912
         return arg(e[1]) + "{%d,%d}" % (e[2], e[3])
     if k in ("and", "not"):
         inner = show(e[1])
-        if e[1][0] in ("and", "not") or (e[1][0] in ("id", "group") and e[1][2]):
+        if e[1][0] in ("and", "not") or starts_with_tag(e[1]):
             inner = "(" + inner + ")"
         return ("&" if k == "and" else "!") + inner
     if k == "push":
@@ -130,7 +138,7 @@ def show_min(e, ctx: int = 0) -> str:
     if k in POSTFIX:
         inner = e[1]
         a = show_min(inner, 2)
-        if inner[0] in POSTFIX or inner[0] in ("and", "not") or (inner[0] == "id" and inner[2]) or (inner[0] == "group" and inner[2]):
+        if inner[0] in POSTFIX or inner[0] in ("and", "not"):
             a = "(" + a + ")"
         suffix = {"opt": "?", "rep": "*", "rep1": "+"}.get(k)
         if suffix is None:
@@ -140,7 +148,7 @@ def show_min(e, ctx: int = 0) -> str:
         # the front end parses the operand of a prefix operator with its postfix operators attached
         a = show_min(e[1], 2)
         inner = e[1]
-        if (inner[0] == "id" and inner[2]) or (inner[0] == "group" and inner[2]):
+        if starts_with_tag(inner):
             a = "(" + a + ")"        # a node tag comes before the prefix operators of its term: &(#t = x), never &#t = x
         return ("&" if k == "and" else "!") + a
     if k == "push":
@@ -327,16 +335,27 @@ def gen_expr(rng: random.Random, depth: int, feats: set, names: list[str], tagn=
     if k == "group":
         return ("group", sub(), tag())
     if k in ("opt", "rep", "rep1", "and", "not", "push"):
+        if "tags" in feats and k in ("opt", "rep", "rep1") and rng.random() < 0.35:
+            # a tagged group directly under a postfix operator, its first item a rule: `#t = (r ~ e)+`
+            tagn[0] += 1
+            return (k, ("group", ("seq", [("id", rng.choice(names), None), sub()]) if rng.random() < 0.6
+                        else ("id", rng.choice(names), None), "t%d" % (tagn[0] % 5)))
         return (k, sub())
+    def bsub():
+        if "tags" in feats and rng.random() < 0.35:
+            tagn[0] += 1
+            return ("group", ("id", rng.choice(names), None), "t%d" % (tagn[0] % 5))
+        return sub()
+
     if k == "exact":
-        return ("exact", sub(), rng.choice([0, 1, 2, 3]))
+        return ("exact", bsub(), rng.choice([0, 1, 2, 3]))
     if k == "min":
-        return ("min", sub(), rng.choice([0, 1, 2]))
+        return ("min", bsub(), rng.choice([0, 1, 2]))
     if k == "max":
-        return ("max", sub(), rng.choice([0, 1, 2, 3]))
+        return ("max", bsub(), rng.choice([0, 1, 2, 3]))
     if k == "minmax":
         m = rng.choice([0, 1, 2])
-        return ("minmax", sub(), m, m + rng.choice([0, 1, 2]))
+        return ("minmax", bsub(), m, m + rng.choice([0, 1, 2]))
     if k == "skipish":
         # the shape the `skip` optimizer pass looks for: (!("a" | "b") ~ ANY)*
         alts = [("str", rng.choice(lits)) for _ in range(rng.choice([1, 2, 3]))]
@@ -908,11 +927,25 @@ def gen_tag_template(rng: random.Random):
         return ("seq", [("not", ("group", bad, None)), good])
 
     n = [0]
+    few_names = rng.random() < 0.4        # nested tags that share a name
 
     def tagged(depth):
         n[0] += 1
         body = attempt(depth) if rng.random() < 0.75 else ("seq", [leafrule(), attempt(depth)])
-        return ("group", body, "t%d" % n[0])
+        g = ("group", body, "t%d" % (rng.choice([1, 1, 2]) if few_names else n[0]))
+        if rng.random() < 0.35:
+            # the tagged group directly under a postfix operator (what the `unroll` pass rewrites)
+            k = rng.choice(["rep1", "rep1", "rep", "opt", "exact", "min", "max", "minmax"])
+            if k in ("rep1", "rep", "opt"):
+                return (k, g)
+            if k == "exact":
+                return ("exact", g, rng.choice([1, 2]))
+            if k == "min":
+                return ("min", g, rng.choice([0, 1]))
+            if k == "max":
+                return ("max", g, rng.choice([1, 2]))
+            return ("minmax", g, 1, 2)
+        return g
 
     top = tagged(2)
     if rng.random() < 0.5:
